@@ -149,6 +149,15 @@ func (r *c13) Exec(op []string) string {
 		}
 		if len(d.Chunks) >= 2 {
 			r.st.Note("unify-kept>=2")
+			if n >= 3 {
+				r.st.Note("unify-kept>=2-with-n>=3")
+			}
+			if n >= 5 {
+				r.st.Note("unify-kept>=2-with-n>=5")
+			}
+		}
+		if len(r.left) >= 100 {
+			r.st.Note("left>=100-lines")
 		}
 		for _, e := range d.Edits {
 			if e.Op == slice.OpReplace {
@@ -234,6 +243,55 @@ func c13mutate(g *G, left []string, alpha []string) []string {
 	return right
 }
 
+// c13sparse (second audit §1 C13/C14): a LONG left file (40..139 lines, thorough ..259; one in four has
+// at least 120 lines, so that line numbers get three digits) with 2..4 isolated small edits far apart: the
+// chunks stay separate after AddContext(n).Unify() also for n = 3, 4 and the larger n of the case, and the
+// renderings have several hunks with full context.  Lines are unique (`L17`) or drawn from the alphabet.
+func c13sparse(g *G, alpha []string) (left, right []string) {
+	n := 40 + g.Intn(g.Scale(100, 220))
+	if g.Chance(1, 4) {
+		n = 120 + g.Intn(g.Scale(20, 140))
+	}
+	unique := g.Chance(1, 2)
+	left = make([]string, n)
+	for i := range left {
+		if unique {
+			left[i] = "L" + strconv.Itoa(i)
+		} else {
+			left[i] = alpha[g.Intn(len(alpha))]
+		}
+	}
+	k := 2 + g.Intn(3)
+	at := map[int]bool{n - 1 - g.Intn(8): true} // one edit near the end: the largest line numbers appear in a header
+	for len(at) < k {
+		at[g.Intn(n)] = true
+	}
+	ins := func() {
+		for j := 0; j <= g.Intn(2); j++ {
+			if unique {
+				right = append(right, "N"+strconv.Itoa(len(right)))
+			} else {
+				right = append(right, alpha[g.Intn(len(alpha))])
+			}
+		}
+	}
+	for i, l := range left {
+		if !at[i] {
+			right = append(right, l)
+			continue
+		}
+		switch g.Intn(3) {
+		case 0: // drop
+		case 1: // replace
+			ins()
+		default: // insert before
+			ins()
+			right = append(right, l)
+		}
+	}
+	return left, right
+}
+
 func c13alpha(g *G) []string {
 	switch g.Intn(4) {
 	case 0:
@@ -276,6 +334,10 @@ func c13pairs(g *G, seed int64, exhLen int, nRandom int, f func(left, right []st
 	}
 	for c := 0; c < nRandom; c++ {
 		alpha := c13alpha(g)
+		if c%40 == 7 {
+			f(c13sparse(g, alpha))
+			continue
+		}
 		n := g.Intn(13)
 		if g.Chance(1, 10) {
 			n = g.Intn(g.Scale(30, 60))
